@@ -95,6 +95,22 @@ func VC02Index() {
 					}
 				}
 			} else {
+				// the time-ordered read returns the same multiset as the scan: necessary conditions that need no matching
+				// (sums of log times, publish times, sequence numbers and payload bytes agree)
+				var gl, gp, gs, gd, sl, sp, ss, sd uint64
+				for i := range got {
+					gl, gp, gs = gl+got[i].m.LogTime, gp+got[i].m.PublishTime, gs+uint64(got[i].m.Sequence)
+					for _, b := range got[i].m.Data {
+						gd += uint64(b)
+					}
+				}
+				for i := range scan {
+					sl, sp, ss = sl+scan[i].m.LogTime, sp+scan[i].m.PublishTime, ss+uint64(scan[i].m.Sequence)
+					for _, b := range scan[i].m.Data {
+						sd += uint64(b)
+					}
+				}
+				vAssert(vAnd(vAnd(gl == sl, gp == sp), vAnd(gs == ss, gd == sd)), "time-ordered indexed read returns the scan's messages (field sums agree)")
 				for i := 1; i < len(got); i++ {
 					if ord == 2 {
 						vAssert(got[i].m.LogTime >= got[i-1].m.LogTime, "log-time order")
